@@ -39,6 +39,11 @@ TYPES = {
 }
 
 
+def _lib_summaries():
+    from ..core.numarr import num_summaries
+    return dict(num_summaries())
+
+
 def mk_transition(origin=None, equation=None, transition_type="ODE", destination=None, magnitude="1", ID=None, name=None):
     """summary of Transition(...) as verified by R-BIRTH on Transition.__init__"""
     tt = transition_type
@@ -108,7 +113,8 @@ def _check_event_init(repo, res):
                     rate = Tok("RATE", "sym") if rate_given else None
                     supplied = ([rate] if rate_given else []) + [t.attrs["equation"] for t in trs if t.attrs["equation"] is not None]
                     me = Obj("Event")
-                    ab = Abs({"TransitionType": TT}, TYPES, {}, me)
+                    ab = Abs({"TransitionType": TT}, TYPES, _lib_summaries(), me)
+                    ab.consts = {"TransitionType": TT}
                     try:
                         kind, val = ab.run_function(f.node, {"transition_list": trs[0] if unlisted else list(trs), "rate": rate})
                     except Undecided as e:
@@ -137,7 +143,8 @@ def _check_event_init(repo, res):
                   "%s: %s" % (text, "; ".join(cases[:3]) + (" ... (%d cases)" % len(cases) if len(cases) > 3 else "")), node=f.node)
     # ODE members rejected
     me = Obj("Event")
-    ab = Abs({"TransitionType": TT}, TYPES, {}, me)
+    ab = Abs({"TransitionType": TT}, TYPES, _lib_summaries(), me)
+    ab.consts = {"TransitionType": TT}
     kind, _ = ab.run_function(f.node, {"transition_list": [Obj("Transition", equation=Tok("e", "sym"), transition_type=TT.attrs["ODE"])], "rate": None})
     res.check(kind == "raise", "R-NULL", f, "rejects-ODE-member", "ODE-type members are rejected", "an ODE-type transition is accepted inside an Event")
 
@@ -245,6 +252,7 @@ def _run_add(repo, name, arg):
         raise AnalysisError("%s vanished" % name)
     me = _model_self()
     ab = Abs({"TransitionType": TT}, TYPES, _model_summaries(), me)
+    ab.consts = {"TransitionType": TT}
     kind, _ = ab.run_function(f.node, {f.params[1]: arg})
     return kind, me, f
 
@@ -325,8 +333,10 @@ def _check_accumulating(repo, res):
         me = _model_self()
         try:
             ab = Abs({"TransitionType": TT}, TYPES, _model_summaries(), me)
+            ab.consts = {"TransitionType": TT}
             k1, _ = ab.run_function(f.node, {f.params[1]: mk(rate1)})
             ab = Abs({"TransitionType": TT}, TYPES, _model_summaries(), me)
+            ab.consts = {"TransitionType": TT}
             k2, _ = ab.run_function(f.node, {f.params[1]: mk(rate2)})
         except Undecided as e:
             res.undecided("R-NORM", f, "accumulates", "outside the modelled subset: %s" % e)
@@ -407,6 +417,7 @@ def _check_setters(repo, res):
             summ = dict(_model_summaries())
             summ["Model." + target] = record
             ab = Abs({"TransitionType": TT}, TYPES, summ, me, eq=_class_eq(repo))
+            ab.consts = {"TransitionType": TT}
             tag = "delegates" if not held else "delegates(first process already held)"
             try:
                 kind, _ = ab.run_function(s.node, {s.params[1]: list(items)})
